@@ -95,6 +95,18 @@ func doCall(name, path, arg string) string {
 			if strings.HasPrefix(arg, "res:") {
 				return resTransform(arg, old), nil
 			}
+			if strings.HasPrefix(arg, "lim:") {
+				// lim:<L>:<spec>: the size limit appears while t runs (the disk fills up, a
+				// quota is reached between the read and the write-back); then as <spec>
+				f := strings.SplitN(arg, ":", 3)
+				n, _ := strconv.ParseUint(f[1], 10, 64)
+				signal.Ignore(syscall.SIGXFSZ)
+				syscall.Setrlimit(syscall.RLIMIT_FSIZE, &syscall.Rlimit{Cur: n, Max: n})
+				if strings.HasPrefix(f[2], "res:") || strings.HasPrefix(f[2], "alias:") {
+					return resTransform(f[2], old), nil
+				}
+				return unhex(f[2]), nil
+			}
 			return unhex(arg), nil
 		}))
 	case "create":
@@ -211,6 +223,35 @@ func helperMain(args []string) {
 		}
 	case "mutexmisc": // mutexmisc <dir>: the corners of Mutex, one line each
 		mutexMisc(args[1])
+	case "hold": // hold <path> <mutex|edit|open>: acquire, report, keep it until stdin closes, release
+		var release func()
+		switch args[2] {
+		case "mutex":
+			unlock, err := lockedfile.MutexAt(args[1]).Lock()
+			if err != nil {
+				fmt.Printf("ERR %d\n", monoNow())
+				return
+			}
+			release = unlock
+		default:
+			var f *lockedfile.File
+			var err error
+			if args[2] == "open" {
+				f, err = lockedfile.Open(args[1])
+			} else {
+				f, err = lockedfile.Edit(args[1])
+			}
+			if err != nil {
+				fmt.Printf("ERR %d\n", monoNow())
+				return
+			}
+			release = func() { f.Close() }
+		}
+		fmt.Printf("LOCKED %d\n", monoNow())
+		buf := make([]byte, 1)
+		os.Stdin.Read(buf)
+		release()
+		fmt.Printf("UNLOCKED %d\n", monoNow())
 	case "holdfd": // holdfd: keep the inherited descriptor 3 open until stdin closes
 		fmt.Println("HOLDING")
 		buf := make([]byte, 1)
